@@ -35,7 +35,7 @@ STATEMENTS (k = the translation of what follows)
   return [e];  raise C / raise C(...) (arguments dropped; C in EXC);  self.tag(NAME, ...) (table TAGS) appends to `out`
   x.m() / if x.m(): for a translated mutating method m rebinds x to the returned self; x must hold a call result and no
       other variable that is read later may refer to the same object (alias sets are tracked through copies and joins)
-  S.add(e) on a set;  S.pop() only as the argument of a return under the guard `if len(S) == 1:`
+  S.add(e) on a set no other name refers to;  S.pop() only as the argument of a return under the guard `if len(S) == 1:`
   JOINS.  A compound statement C followed by k becomes  lbind C' (fun '(v1, .., vn) => k)  where v1..vn are the variables
   whose binding differs at the end of a branch of C from the binding before C (kinds joined: none + str = optstr ...; a
   variable not bound on every path is dropped).  Branches ending in return / raise do not take part.  When kinds do not
@@ -533,6 +533,8 @@ class Fn:
                 return self.bind('out', Val('(%s ++ [%s])' % (env['out'].text, d), 'diags', frozenset()), env, k, self.take())
             if isinstance(c.func, ast.Attribute) and c.func.attr == 'add' and isinstance(c.func.value, ast.Name) and len(c.args) == 1 and not c.keywords:
                 o, x = self.ex(c.func.value, env), self.ex(c.args[0], env)
+                if any(v == o and n != c.func.value.id for n, v in env.items()):
+                    bad(s, 'a set that another name refers to is changed')
                 if o.kind == 'sset' and x.kind == 'str':
                     return self.bind(c.func.value.id, Val('(sset_add %s %s)' % (x.text, o.text), 'sset', frozenset()), env, k, self.take())
             self.allow_mut = c
